@@ -24,6 +24,7 @@ import (
 	"time"
 
 	"github.com/AdguardTeam/AdGuardDNS/verif/vkit"
+	"github.com/miekg/dns"
 	"gopkg.in/yaml.v2"
 )
 
@@ -59,6 +60,7 @@ type observation struct {
 	Answered      int           `json:"answered"`
 	Probes        []string      `json:"size_probes,omitempty"`
 	FaultDNSCheck int           `json:"dnscheck_queries_under_failing_backend,omitempty"`
+	Restart       *restartInfo  `json:"restart,omitempty"`
 	ConnLimit     *limitResult  `json:"connection_limit_script,omitempty"`
 	StartMS       int64         `json:"start_ms"`
 	TrafficMS     int64         `json:"traffic_ms"`
@@ -79,6 +81,7 @@ var (
 	reCheckFrame = regexp.MustCompile(`golibs/errors\.(Check|Must)[\[(]`)
 	reYAMLLine   = regexp.MustCompile(`line (\d+):`)
 	reCollision  = regexp.MustCompile(`address already in use`)
+	reNoSpace    = regexp.MustCompile(`no space left on device`)
 )
 
 // outSink receives the child's stdout+stderr.  It scans every line as it
@@ -300,6 +303,126 @@ func boundExpectation(o *observation, ms []mutation) {
 	}
 }
 
+// restartInfo is what was observed around the restart.
+type restartInfo struct {
+	CacheFileBytes     int64  `json:"profile_cache_bytes_before_restart"`
+	FirstLifeAnswered  bool   `json:"device_query_answered_in_first_life"`
+	DeviceLoggedBefore int    `json:"device_queries_logged_in_first_life"`
+	DeviceQueriesAfter int    `json:"device_queries_sent_after_restart"`
+	DeviceLoggedAfter  int    `json:"device_queries_logged_after_restart"`
+	FirstLifeExit      int    `json:"first_life_exit_code"`
+	Note               string `json:"note,omitempty"`
+}
+
+// countQueryLog counts the query-log records that carry the device ID, i.e. the
+// queries for which the device was recognised.
+func countQueryLog(path, deviceID string) int {
+	b, err := os.ReadFile(path)
+	if err != nil {
+		return 0
+	}
+	return strings.Count(string(b), `"i":"`+deviceID+`"`)
+}
+
+// firstLife runs the process once up to the point where the profile cache
+// exists and stops it.  stop is true when the observation is already decided
+// (the first life itself failed).
+func (h *harness) firstLife(obs *observation, dir string, loc *localised, ms []mutation) (stop bool) {
+	ri := &restartInfo{}
+	obs.Restart = ri
+	sink := &outSink{}
+	cmd := exec.Command(h.bin)
+	cmd.Dir = dir
+	cmd.Env = childEnv(h.fx, dir, loc.DebugPort, ms)
+	cmd.Stdout, cmd.Stderr = sink, sink
+	if err := cmd.Start(); err != nil {
+		obs.Verdict, obs.Class, obs.What = "ambiguous", "exec", err.Error()
+		return true
+	}
+	done := make(chan struct{})
+	go func() { _ = cmd.Wait(); close(done) }()
+	exited := func() bool {
+		select {
+		case <-done:
+			return true
+		default:
+			return false
+		}
+	}
+	t0 := time.Now()
+	dbg := "127.0.0.1:" + strconv.Itoa(loc.DebugPort)
+	ready := false
+	for !ready && !exited() && time.Since(t0) < startupWatchdog {
+		if c, err := net.DialTimeout("tcp4", dbg, 200*time.Millisecond); err == nil {
+			_ = c.Close()
+			ready = true
+			break
+		}
+		time.Sleep(15 * time.Millisecond)
+	}
+	fail := func(class, what string) bool {
+		if !exited() {
+			_ = cmd.Process.Kill()
+			<-done
+		}
+		out, bad, collision := sink.snapshot()
+		obs.Output, obs.BadLines = out, bad
+		if collision {
+			obs.Verdict, obs.Class, obs.What = "ambiguous", "first-life-port-collision", what
+			return true
+		}
+		obs.Verdict, obs.Class, obs.What = "ambiguous", class, what
+		return true
+	}
+	if !ready {
+		return fail("first-life-not-started", "the first start did not reach the listening state")
+	}
+	// The cache file is written by the initial (full) synchronisation.
+	cache := filepath.Join(dir, "profilecache.pb")
+	for time.Since(t0) < 20*time.Second {
+		if fi, err := os.Stat(cache); err == nil && fi.Size() > 0 {
+			ri.CacheFileBytes = fi.Size()
+			break
+		}
+		time.Sleep(25 * time.Millisecond)
+	}
+	if ri.CacheFileBytes == 0 {
+		return fail("first-life-no-profile-cache", "no profile cache file after the first start")
+	}
+	var addr string
+	for _, s := range liveServers(applyMutations(loc.Tree, ms, 0), loc) {
+		if s.Proto == "dns" && len(s.Addrs) > 0 {
+			addr = s.Addrs[0]
+			break
+		}
+	}
+	if addr != "" {
+		resp, _ := udpOne(srcProfileDev, addr, query{"first-life.c20.example.", dns.TypeA, 0}, firstWait)
+		ri.FirstLifeAnswered = resp != nil
+	}
+	_ = cmd.Process.Signal(syscall.SIGTERM)
+	select {
+	case <-done:
+	case <-time.After(shutdownWatchdog):
+		return fail("first-life-shutdown-watchdog", "the first life did not stop")
+	}
+	ri.FirstLifeExit = cmd.ProcessState.ExitCode()
+	ri.DeviceLoggedBefore = countQueryLog(filepath.Join(dir, "querylog.jsonl"), stubDeviceID)
+	out, bad, _ := sink.snapshot()
+	if len(bad) > 0 || ri.FirstLifeExit != 0 {
+		// A panic or unclean exit already in the first life is a violation of
+		// the ordinary kind.
+		obs.Output, obs.BadLines, obs.Exit = out, bad, ri.FirstLifeExit
+		obs.Verdict, obs.Class = "violation", "request-panic"
+		obs.What = "panic / recovered line or non-zero exit in the first life of a restart case"
+		if len(bad) == 0 {
+			obs.Class = "unclean-exit"
+		}
+		return true
+	}
+	return false
+}
+
 // runOnce executes the configuration obtained from the base by ms.
 func (h *harness) runOnce(ms []mutation, tag string) (obs *observation) {
 	obs = &observation{}
@@ -308,6 +431,10 @@ func (h *harness) runOnce(ms []mutation, tag string) (obs *observation) {
 		o.PortRetry = attempt
 		if !collided {
 			boundExpectation(o, ms)
+			if o.Verdict != "accepted" && reNoSpace.MatchString(o.Output) {
+				// The machine ran out of disk; nothing can be concluded.
+				o.Verdict, o.Class, o.What = "ambiguous", "disk-full", "no space left on device in the child's output"
+			}
 			return o
 		}
 		obs = o
@@ -345,6 +472,15 @@ func (h *harness) attempt(ms []mutation, tag string) (obs *observation, collided
 	if err = writeFile(filepath.Join(dir, "config.yaml"), cfg); err != nil {
 		obs.Verdict, obs.Class, obs.What = "ambiguous", "write", err.Error()
 		return obs, false
+	}
+	if restartHistory(ms) {
+		// First life of the process: start, let the full profile
+		// synchronisation write the cache file, answer one query of the
+		// profile's device, stop.  The observed run below is the second life,
+		// on the same cache and query-log paths.
+		if stop := h.firstLife(obs, dir, loc, ms); stop {
+			return obs, false
+		}
 	}
 	sink := &outSink{}
 	cmd := exec.Command(h.bin)
@@ -423,6 +559,7 @@ func (h *harness) attempt(ms []mutation, tag string) (obs *observation, collided
 	if v, ok := treeGet(tree, cfgPath{key("check"), key("kv"), key("type")}); ok && fmt.Sprint(v) == "cache" {
 		sp.DNSCheckOK = true
 	}
+	sp.ProfileDev = restartHistory(ms)
 	sp.KVFault = kvFault(ms)
 	sp.DNSCheckAll = backendMatrix(ms)
 	tTraffic := time.Now()
@@ -479,6 +616,14 @@ func (h *harness) attempt(ms []mutation, tag string) (obs *observation, collided
 	finish()
 	if collision {
 		return obs, true
+	}
+	if obs.Restart != nil {
+		obs.Restart.DeviceLoggedAfter = countQueryLog(filepath.Join(dir, "querylog.jsonl"), stubDeviceID) - obs.Restart.DeviceLoggedBefore
+		for _, g := range obs.Groups {
+			if g.Client == "profile-device" {
+				obs.Restart.DeviceQueriesAfter += g.Sent
+			}
+		}
 	}
 	h.classifyAccepted(obs, diedDuringTraffic, termTimedOut, sp.TimeTouched)
 	return obs, false
@@ -806,6 +951,14 @@ func (h *harness) account(cr caseResult, found *findings) (class string) {
 	r.Bucket("queries_answered", int64(obs.Answered))
 	r.Bucket("effective_size_probes_applied", int64(len(obs.Probes)))
 	r.Bucket("dnscheck_queries_under_failing_backend", int64(obs.FaultDNSCheck))
+	if ri := obs.Restart; ri != nil && obs.Verdict != "ambiguous" {
+		r.Bucket("restart_cases_decided", 1)
+		if ri.CacheFileBytes > 0 {
+			r.Bucket("restarts_with_profile_cache", 1)
+		}
+		r.Bucket("profile_device_queries_after_restart", int64(ri.DeviceQueriesAfter))
+		r.Bucket("profile_device_queries_logged_with_device_after_restart", int64(ri.DeviceLoggedAfter))
+	}
 	if (c.Stream == "list" || c.Stream == "list-all") && obs.Verdict != "ambiguous" {
 		r.Bucket("list_cases_decided", 1)
 	}
@@ -930,6 +1083,7 @@ func TestCheck(t *testing.T) {
 	r.Assume("queries of the rate-limited loopback clients are required only while the configured limits allow them; when a rate-limit parameter is mutated only the first query of a fresh client is required")
 	r.Assume("connection_limit.stop/resume of 0 or 1 is below the documented minimum (more than the number of bound addresses): stream transports are then not required to answer")
 	r.Assume("effective-value probe: a UDP answer of known size must be complete when both the advertised EDNS buffer and dns.max_udp_response_size as written in the file exceed it by 64 bytes; skipped when socket buffer sizes or 1ns durations are mutated")
+	r.Assume("restart cases: the stub backend delivers its profile (one device recognised by linked IP 127.0.2.1, custom rate limit) on full synchronisations only; the second life of the process must have got it from the profile cache, which is checked by the device ID in the query-log records written after the restart")
 	r.Assume("a failing key-value backend is a fault of the environment: the configuration is still accepted, the DNS-check query must still be answered and nothing may panic")
 	r.Assume("connection limit: sockets that are accepting count as active (documented); when stop <= listeners+3 and resume < listeners the ordinary stream groups are not required, and the dedicated script (which keeps its connections open and so controls the count) requires min(listeners used, stop-resume) listeners to serve after the count has fallen to resume")
 	r.Assume("an unanswered query is retried alone (3 s, then 8 s) and every violation is confirmed by a second, separate execution of the same file")
@@ -973,9 +1127,9 @@ func TestCheck(t *testing.T) {
 	spellFs := enumSpellingFields(fields)
 	spellFs = append(spellFs, structuralFields(h.baseLoc.Tree)...) // for C20_ONLY / replay look-up
 	spellFs = append(spellFs, listFields(h.baseLoc.Tree)...)
-	for _, ms := range backendMatrixCases(h.baseLoc.Tree) {
+	for _, ms := range append(backendMatrixCases(h.baseLoc.Tree), restartCases(fields)...) {
 		for _, m := range ms {
-			if m.Kind == "bool" || m.Kind == "fault" {
+			if m.Kind == "bool" || m.Kind == "fault" || m.Kind == "history" {
 				spellFs = append(spellFs, field{Path: m.Path, Kind: m.Kind, Values: []mutValue{m.Value}})
 			}
 		}
@@ -1187,6 +1341,10 @@ func TestCheck(t *testing.T) {
 		combos = append(combos, caseSpec{Stream: "backend-matrix", Idx: i, Muts: ms})
 		r.Bucket("cases_backend_matrix", 1)
 	}
+	for i, ms := range restartCases(fields) {
+		combos = append(combos, caseSpec{Stream: "restart", Idx: i, Muts: ms})
+		r.Bucket("cases_restart", 1)
+	}
 	depCases := enumDependentCases(spellFs, fields)
 	for i, ms := range depCases {
 		combos = append(combos, caseSpec{Stream: "enum-dependent", Idx: i, Muts: ms})
@@ -1210,6 +1368,10 @@ func TestCheck(t *testing.T) {
 	r.Require("queries_answered", 10000)
 	r.Require("effective_size_probes_applied", 100)
 	r.Require("connlimit_scripts_run", 6)
+	r.Require("cases_restart", 2)
+	r.Require("restarts_with_profile_cache", 2)
+	r.Require("profile_device_queries_after_restart", 8)
+	r.Require("profile_device_queries_logged_with_device_after_restart", 6)
 	r.Require("cases_list", 60)
 	r.Require("cases_list_all_occurrences", 10)
 	r.Require("list_cases_decided", 70)
